@@ -63,13 +63,13 @@ class Stall(object):
         if not self.active:
             if env.wire or env.frames_seen < self.frame:
                 return None
-            if env.frames_seen == self.frame and not env.dev.ready_queues(env.clock.now) and self.kind in ('trickle', 'unexpected', 'wrte'):
+            if env.frames_seen == self.frame and not env.dev.ready_queues(env.clock.now) and self.kind in ('trickle', 'unexpected', 'wrte', 'wrte0'):
                 return None                   # the awaited frame does not exist yet (host has to write first)
             self.active = True
             self.t0 = env.clock.now
             self.calls0 = env.calls
             self.ev0 = len(env.events)
-            if self.kind in ('trickle', 'unexpected', 'wrte'):
+            if self.kind in ('trickle', 'unexpected', 'wrte', 'wrte0'):
                 fr = env._frame()
                 if fr is not None:
                     self.ids = (int.from_bytes(fr[4:8], 'little'), int.from_bytes(fr[8:12], 'little'))
@@ -88,13 +88,13 @@ class Stall(object):
             out = bytes(self.buf[:1])
             del self.buf[:1]
             return out
-        if k == 'wrte':
+        if k in ('wrte', 'wrte0'):
             # reactive: the first WRTE at once, every further one only after the host acknowledged the previous one (stop-and-wait)
             if not self.buf:
                 acks = sum(1 for w, p in env.events[self.ev0:] if w == 'H' and p.cmd == b'OKAY' and p.a0 == self.ids[1])
                 if self.sent > acks:
                     return self.timeout(env, timeout)
-                data = b'more%d' % self.sent
+                data = b'' if k == 'wrte0' else b'more%d' % self.sent       # wrte0: zero-length writes (a keep-alive that carries nothing)
                 self.buf += frames.encode(b'WRTE', self.ids[0], self.ids[1], data) + data
                 self.sent += 1
             out = bytes(self.buf[:n])
